@@ -229,3 +229,46 @@ Lemma mulMF_entries m o :
       (V (dotG f64 add64 mul64 (c0 t) (c1 o)) (dotG f64 add64 mul64 (c1 t) (c1 o)) (dotG f64 add64 mul64 (c2 t) (c1 o)))
       (V (dotG f64 add64 mul64 (c0 t) (c2 o)) (dotG f64 add64 mul64 (c1 t) (c2 o)) (dotG f64 add64 mul64 (c2 t) (c2 o))).
 Proof. reflexivity. Qed.
+
+(* Matrix3.MulM in binary64, the whole product: each of the nine entries (row selector r, column selector c)
+   is finite and within the dot-product bound of the exact row-by-column sum, for every pair of finite
+   matrices whose 27 elementary products stay below 2^K; Transpose involves no rounding at all *)
+Definition selV (r : vecF -> f64) : Prop := r = @v0 f64 \/ r = @v1 f64 \/ r = @v2 f64.
+Definition selM (c : matF -> vecF) : Prop := c = @c0 f64 \/ c = @c1 f64 \/ c = @c2 f64.
+Definition prodsM (K : Z) (m o : matF) : Prop :=
+  forall r c, selV r -> selM c ->
+  Rabs (B2R (r (c0 m)) * B2R (v0 (c o))) <= bpow radix2 K /\ Rabs (B2R (r (c1 m)) * B2R (v1 (c o))) <= bpow radix2 K /\
+  Rabs (B2R (r (c2 m)) * B2R (v2 (c o))) <= bpow radix2 K.
+
+Theorem mulMF_close (K : Z) (m o : matF) :
+  (-1074 <= K)%Z /\ (K + 2 < 1024)%Z -> finM m -> finM o -> prodsM K m o ->
+  forall r c, selV r -> selM c ->
+  let P1 := B2R (r (c0 m)) * B2R (v0 (c o)) in let P2 := B2R (r (c1 m)) * B2R (v1 (c o)) in let P3 := B2R (r (c2 m)) * B2R (v2 (c o)) in
+  is_finite (r (c (mulMF m o))) = true /\
+  Rabs (B2R (r (c (mulMF m o))) - (P1 + P2 + P3)) <= bound3 u64 eta64 P1 P2 P3.
+Proof.
+  intros HK ((A0 & A1 & A2) & (B0 & B1 & B2) & (C0 & C1 & C2)) ((D0 & D1 & D2) & (E0 & E1 & E2) & (F0 & F1 & F2)) Hp r c Hr Hc.
+  destruct (Hp r c Hr Hc) as (Q1 & Q2 & Q3).
+  rewrite mulMF_entries.
+  destruct Hr as [ -> | [ -> | -> ] ]; destruct Hc as [ -> | [ -> | -> ] ]; cbv zeta; unfold transposeF, transposeG;
+    cbn [v0 v1 v2 c0 c1 c2]; cbn [v0 v1 v2 c0 c1 c2] in Q1, Q2, Q3;
+    apply (dotF_close K); try exact HK; try exact Q1; try exact Q2; try exact Q3; cbn [v0 v1 v2]; repeat split; assumption.
+Qed.
+
+Theorem transposeF_exact (m : matF) :
+  transposeF (transposeF m) = m /\
+  (v0 (c0 (transposeF m)) = v0 (c0 m) /\ v1 (c0 (transposeF m)) = v0 (c1 m) /\ v2 (c0 (transposeF m)) = v0 (c2 m)) /\
+  (v0 (c1 (transposeF m)) = v1 (c0 m) /\ v1 (c1 (transposeF m)) = v1 (c1 m) /\ v2 (c1 (transposeF m)) = v1 (c2 m)) /\
+  (v0 (c2 (transposeF m)) = v2 (c0 m) /\ v1 (c2 (transposeF m)) = v2 (c1 m) /\ v2 (c2 (transposeF m)) = v2 (c2 m)).
+Proof. destruct m as [[? ? ?] [? ? ?] [? ? ?]]; repeat split. Qed.
+
+(* the premises are satisfiable: the identity matrix times itself, K = 0 *)
+Definition one64 : f64 := f64_of_bits 4607182418800017408.
+Definition identF : matF := let z := f64_of_bits 0 in M (V one64 z z) (V z one64 z) (V z z one64).
+Example mulMF_close_premises : finM identF /\ prodsM 0 identF identF.
+Proof.
+  split; [ repeat split | ].
+  intros r c [ -> | [ -> | -> ] ] [ -> | [ -> | -> ] ]; cbn [identF v0 v1 v2 c0 c1 c2];
+    assert (H1 : B2R one64 = 1) by (vm_compute; lra); assert (H0 : B2R (f64_of_bits 0) = 0) by reflexivity;
+    rewrite ?H1, ?H0, ?Rmult_0_l, ?Rmult_0_r, ?Rmult_1_l, ?Rabs_R0, ?Rabs_R1; simpl; repeat split; lra.
+Qed.
